@@ -9,7 +9,7 @@ open Pox Pox.Proto Pox.Revent
           {"op":"add","et","hid","prio","once","weak":null|o} | {"op":"bind","meths":[[prefix,et]..],"pfx","base","prio","weak"} | {"op":"rmm","pairs":[[et,eid]..]}
         | {"op":"rmh","hid","et":null|t} | {"op":"rme","eid","et"} | {"op":"rmp","et","eid","et2"}
         | {"op":"clear"} | {"op":"drop","o"} | {"op":"count"} | {"op":"raise","et","form":"inst"|"cls"|"junkc"|"junko"|"fwd"|"again" (+"f"),"noerr"}
-  ret: {"k":"none"|"false"|"true"|"tup0"|"other"} | {"k":"tup1","h"} | {"k":"tup2","h","r"} | {"k":"exc","e":"revent"|"key"|"attr"|"other"}
+  ret: {"k":"none"|"false"|"true"|"tup0"|"other"} | {"k":"tup1","h"} | {"k":"tup2","h","r"} | {"k":"exc","e":"revent"|"key"|"attr"|"unbound"|"other"|"base"}
 The k-th invocation (k = 0,1,..) of handler `hid` runs the k-th script of its list; beyond the list (or with no list)
 the handler does nothing and returns None.
 Answer: {"finished", "log":[call/ret/res events], "frames":[[fid, src, et, [eid..]]..],
@@ -19,7 +19,7 @@ def optNatOf (j : J) (k : String) : Except String (Option Nat) := j.optNat k
 
 def parseExc (s : String) : Except String Exc :=
   if s = "revent" then .ok .revent else if s = "key" then .ok .key else if s = "attr" then .ok .attr
-  else if s = "unbound" then .ok .unbound
+  else if s = "unbound" then .ok .unbound else if s = "base" then .ok .base
   else if s = "other" then .ok .other
   else .error s!"bad exception kind {s}"
 
@@ -102,7 +102,7 @@ def mkBeh (tbl : List (Nat × List Script)) : Beh := fun hid log =>
     | none => ⟨none, [], .none⟩
 
 def excName : Exc → String
-  | .revent => "revent" | .key => "key" | .attr => "attr" | .unbound => "unbound" | .other => "other"
+  | .revent => "revent" | .key => "key" | .attr => "attr" | .unbound => "unbound" | .other => "other" | .base => "base"
 
 def retJ : Ret → J
   | .none => .str "none" | .fals => .str "false" | .tru => .str "true" | .tup0 => .str "tup0" | .other => .str "other"
